@@ -128,6 +128,12 @@ func (s *Stream) ExecuteFlow(
 			if shortCircuitNode, err = s.ExecuteFlow(flow, apiStream, targetNode, actions); err != nil {
 				return shortCircuitNode, fmt.Errorf("failed to execute flow: %w", err)
 			}
+			if shortCircuitNode != nil {
+				// A processor below answered the request itself: the rest of the
+				// request path is skipped (further connections with the same
+				// condition must not run, nor overwrite the short-circuit node).
+				return shortCircuitNode, nil
+			}
 		}
 	}
 	return shortCircuitNode, nil
